@@ -562,9 +562,35 @@ pub fn run(tier: Tier) -> i32 {
             st.sample(1, || json!({"net": net, "restriction_sets": restrictions(net, tier).len(), "example": restrictions(net, tier).last()}));
         }
     });
+    // restricted turns where plain A* reaches an expanded vertex again over a cheaper edge (edges recorded shorter than the
+    // straight line between their end points make the estimate inconsistent at weight factor 1): the turn into an outgoing edge
+    // was validated against the label the vertex had when it was expanded
+    let sspecs = vec![GenSpec { n: 5, max_edges: tier.pick(4, 5), max_mult: 1, n_len: 3, self_loops: false, mode: LenMode::LineShort }];
+    let st_short = par_enumerate(&sspecs, |_spec, net, st| {
+        st.states += 1;
+        let m = net.m();
+        let w = World::distance(net.clone());
+        let mut pairs = vec![];
+        for a in 0..m {
+            for b in 0..m {
+                if a != b && net.edges[a].1 == net.edges[b].0 {
+                    pairs.push((a, b));
+                }
+            }
+        }
+        for p in pairs.iter() {
+            let r = Restr { turns: Some(vec![*p]), ..Default::default() };
+            for algo in [Algo::AStar(None), Algo::AStar(Some(1.0))].iter() {
+                check_case(&w, &r, algo, &Orient::Vertex { o: 0, d: Some(net.n - 1) }, false, st);
+                check_case(&w, &r, algo, &Orient::Vertex { o: 0, d: None }, false, st);
+            }
+        }
+    });
+    st.merge(st_short);
     st.merge(yst);
     st.notes.insert(format!("yens pass: {} cases (network x one forbidden edge off the least-cost route) x k in {{2, 3}} in worker processes; {} did not come back within 100 ms (termination of Yen's algorithm is C13's business)", n_yens, yfates.len()));
-    let desc: Vec<String> = specs.iter().map(|s| s.describe()).collect();
+    let mut desc: Vec<String> = specs.iter().map(|s| s.describe()).collect();
+    desc.extend(sspecs.iter().map(|s| format!("{} x every single restricted turn under plain A* (inconsistent estimate)", s.describe())));
     finish(
         &info,
         st,
